@@ -394,6 +394,18 @@ pub fn run_live(ctx: &mut Ctx) {
         }
     }
     let peer: Option<IpAddr> = Some("127.0.0.1".parse().unwrap());
+    // an origin for the reverse-proxy host, so that an admitted request is answered
+    let origin_l = std::net::TcpListener::bind("127.0.0.1:0").unwrap();
+    let origin = origin_l.local_addr().unwrap();
+    std::thread::spawn(move || {
+        for s in origin_l.incoming() {
+            let Ok(mut s) = s else { continue };
+            let _ = s.set_read_timeout(Some(Duration::from_secs(1)));
+            let mut buf = [0u8; 2048];
+            let _ = s.read(&mut buf);
+            let _ = s.write_all(b"HTTP/1.1 200 OK\r\ncontent-length: 0\r\nconnection: close\r\n\r\n");
+        }
+    });
     for (li, rules) in lists.iter().enumerate() {
         let dual = li % 2 == 1;
         let rules2 = rules.clone();
@@ -408,11 +420,18 @@ pub fn run_live(ctx: &mut Ctx) {
                 })
                 .tls_handshake_timeout(Duration::from_secs(2))
                 .clients(vec![trusttunnel::authentication::registry_based::Client { username: "u".into(), password: "p".into() }])
+                .reverse_proxy(trusttunnel::settings::ReverseProxySettings::builder().server_address(origin).unwrap().path_mask("/rp".to_string()).build().unwrap())
                 .rules_engine(RulesEngine::from_config(RulesConfig { rule: rules2.clone() }))
                 .build()
                 .unwrap();
+            // every class of host entry: the rules come before any of them is looked at
+            const FIX: &str = concat!(env!("CARGO_MANIFEST_DIR"), "/fixtures/");
+            let h = |n: &str, f: &str| TlsHostInfo { hostname: n.into(), cert_chain_path: format!("{}{}", FIX, f), private_key_path: format!("{}{}", FIX, f), allowed_sni: vec![] };
             let hosts = TlsHostsSettings::builder()
-                .main_hosts(vec![TlsHostInfo { hostname: "localhost".into(), cert_chain_path: FIXTURE_PEM.into(), private_key_path: FIXTURE_PEM.into(), allowed_sni: vec![] }])
+                .main_hosts(vec![h("localhost", "localhost.pem")])
+                .ping_hosts(vec![h("ping.verif.test", "c05_ping.pem")])
+                .speedtest_hosts(vec![h("speed.verif.test", "c05_speed.pem")])
+                .reverse_proxy_hosts(vec![h("rproxy.verif.test", "c05_rproxy.pem")])
                 .build()
                 .unwrap();
             Core::new(settings, None, hosts, Shutdown::new()).unwrap()
@@ -424,8 +443,9 @@ pub fn run_live(ctx: &mut Ctx) {
         // ---- TCP: a chosen random in a real ClientHello ----
         let mut randoms: Vec<Vec<u8>> = vec![vec![0x00; 32], vec![0xff; 32], vec![0x7f; 32], vec![0x80; 32], vec![0x40; 32], vec![0xc0; 32], vec![0x0f; 32]];
         randoms.push(ctx.rng.bytes(32));
-        for rnd in &randoms {
-            let mut hello = client_hello("localhost");
+        let snis = ["localhost", "ping.verif.test", "speed.verif.test", "rproxy.verif.test", "user.localhost"];
+        for (ri, rnd) in randoms.iter().enumerate() {
+            let mut hello = client_hello(snis[(ri + li) % snis.len()]);
             hello[11..43].copy_from_slice(rnd);
             let Ok(mut s) = std::net::TcpStream::connect(ep.addr) else { continue };
             let _ = s.set_read_timeout(Some(Duration::from_millis(1500)));
@@ -440,14 +460,18 @@ pub fn run_live(ctx: &mut Ctx) {
             ctx.stat(&format!("live_tcp_{}{}", ans, if dual { "_dual_stack" } else { "" }));
         }
         // ---- QUIC: the random of the handshake ----
-        for _ in 0..(if ctx.thorough() { 10 } else { 5 }) {
-            let (ans, rnd) = match H3Client::connect(ep.addr, Some("localhost"), &[b"h3"], 1 << 20, Duration::from_millis(1500)) {
+        for k in 0..(if ctx.thorough() { 12 } else { 6 }) {
+            let sni = snis[(k + li) % 4];
+            let (ans, rnd) = match H3Client::connect(ep.addr, Some(sni), &[b"h3"], 1 << 20, Duration::from_millis(1500)) {
                 Err(_) => continue, // the QUIC handshake itself is not subject to the rules
                 Ok(mut cl) => {
                     let rnd = cl.client_random();
-                    let id = cl.request("CONNECT", None, "_check", None, &[], false);
+                    // any answer at all means the connection was admitted (tunnel: health check 200; ping: 200; speedtest: 400;
+                    // reverse proxy: whatever its dead origin makes of it)
+                    let id = if sni == "localhost" { cl.request("CONNECT", None, "_check", None, &[], false) } else { cl.request("GET", Some("https"), sni, Some("/"), &[], true) };
                     cl.wait(Duration::from_millis(700), |c| id.and_then(|i| c.streams.get(&i)).map(|s| s.status.is_some()).unwrap_or(false));
-                    let served = id.map(|i| cl.stream(i).status == Some(200)).unwrap_or(false);
+                    let served = id.map(|i| cl.stream(i).status.is_some()).unwrap_or(false);
+                    ctx.stat(&format!("live_quic_sni_{}", sni.split('.').next().unwrap_or("")));
                     cl.close();
                     (if served { "allow" } else { "deny" }, rnd)
                 }
